@@ -737,7 +737,7 @@ def run(ctx):
         ctx.count('corpus')
         replay(ctx, rec, fresh=fresh, U=U, f1_fixed=f1_fixed)
     object_reuse_checks(ctx)
-    n_hist = ctx.n(int(os.environ.get('C15_N', 32)), 400)
+    n_hist = ctx.n(int(os.environ.get('C15_N', 24)), 400)
     block = 40
     # per run (seed) a sub-universe, so that fresh results are shared between histories; the thorough tier uses everything
     if ctx.thorough():
